@@ -1,4 +1,4 @@
-import DcmVerif.Proofs.Phoenix
+import DcmVerif.Proofs.PhoenixRT
 /-! Property theorems for C16. Statements only; proofs are by reference to `Proofs/`. -/
 set_option autoImplicit false
 
@@ -84,5 +84,78 @@ theorem strip_sandwich (ws1 key ws2 : Str)
 theorem find_first (c : Char) (pre post : Str) (h : c ∉ pre) :
     findSub [c] (pre ++ c :: post) = some pre.length :=
   Phx.findSub_single_append c pre post h
+
+/-! ### unbounded round trip (`Proofs/PhoenixRT.lean`) -/
+
+/-- **numbers, line level, both dialects**: for any whitespace `ws1..ws4`, any key without
+    whitespace at its ends and without `=`, `#`, `"`, any value token without whitespace at its ends
+    and without `#`, `"`, and an optional trailing comment `# …`, the line
+    `ws1 key ws2 = ws3 val ws4 [# comment]` is handed to the numeric conversions as exactly
+    `(key, val)` -/
+theorem parse_render_number (d : Str) (hd : Dialect d) (ws1 key ws2 ws3 val ws4 cmt : Str)
+    (h1 : ∀ c ∈ ws1, isWs c = true) (h2 : ∀ c ∈ ws2, isWs c = true)
+    (h3 : ∀ c ∈ ws3, isWs c = true) (h4 : ∀ c ∈ ws4, isWs c = true)
+    (hkey : NoWsEnds key) (hk1 : '=' ∉ key) (hk2 : '#' ∉ key) (hk3 : '"' ∉ key)
+    (hval : NoWsEnds val) (hv2 : '#' ∉ val) (hv3 : '"' ∉ val)
+    (hc : cmt = [] ∨ ∃ x, cmt = '#' :: x) :
+    parseLine d (ws1 ++ key ++ ws2 ++ '=' :: (ws3 ++ val ++ ws4 ++ cmt)) = parseNumber key val :=
+  Phx.parse_render_number d hd ws1 key ws2 ws3 val ws4 cmt h1 h2 h3 h4 hkey hk1 hk2 hk3 hval hv2 hv3 hc
+
+/-- **quoted strings, line level, both dialects**: the content (any characters but `"`, so `#` and
+    `=` included) comes back exactly, with or without a trailing comment -/
+theorem parse_render_string (d : Str) (hd : Dialect d) (ws1 key ws2 ws3 content ws4 cmt : Str)
+    (h1 : ∀ c ∈ ws1, isWs c = true) (h2 : ∀ c ∈ ws2, isWs c = true)
+    (h3 : ∀ c ∈ ws3, isWs c = true) (h4 : ∀ c ∈ ws4, isWs c = true)
+    (hkey : NoWsEnds key) (hk1 : '=' ∉ key) (hk2 : '#' ∉ key) (hk3 : '"' ∉ key)
+    (hq : '"' ∉ content)
+    (hc : cmt = [] ∨ ∃ x, cmt = '#' :: x) :
+    parseLine d (ws1 ++ key ++ ws2 ++ '=' :: (ws3 ++ d ++ content ++ d ++ ws4 ++ cmt)) =
+      .pair key (.str content) :=
+  Phx.parse_render_string d hd ws1 key ws2 ws3 content ws4 cmt h1 h2 h3 h4 hkey hk1 hk2 hk3 hq hc
+
+/-- **decimal integers** of any length (leading zeros allowed), optional `-` -/
+theorem parseNumber_dec (key : Str) (neg : Bool) (cs : Str) (hne : cs ≠ [])
+    (h : ∀ c ∈ cs, isDigit c = true) :
+    parseNumber key (signStr neg ++ cs) = .pair key (.int (applySign neg (valOf 10 decDigit cs))) :=
+  Phx.parseNumber_dec key neg cs hne h
+
+/-- **`0x` / `0X` hexadecimal integers** of any length, digits of either case, optional `-` -/
+theorem parseNumber_hex (key : Str) (neg : Bool) (x : Char) (cs : Str) (hx : x = 'x' ∨ x = 'X')
+    (hne : cs ≠ []) (h : ∀ c ∈ cs, (hexVal c).isSome = true) :
+    parseNumber key (signStr neg ++ '0' :: x :: cs) =
+      .pair key (.int (applySign neg (valOf 16 hexVal cs))) :=
+  Phx.parseNumber_hex key neg x cs hx hne h
+
+/-- **floats**: a token containing a character no integer syntax admits (`.`, an exponent sign, …)
+    comes back as that float lexeme iff CPython's `float()` accepts it, else the parse error —
+    never a wrong integer (contrast F8: `1e5`, all hex digits) -/
+theorem parseNumber_float (key v : Str) (c : Char) (hc : c ∈ (splitSign v).2)
+    (hx : hexVal c = none) (h1 : c ≠ '_') (h2 : c ≠ 'x') (h3 : c ≠ 'X') :
+    parseNumber key v = if pyFloatOk v then .pair key (.floatLex v) else .parseError :=
+  Phx.parseNumber_float key v c hc hx h1 h2 h3
+
+theorem parseNumber_point (key v : Str) (hp : '.' ∈ v) :
+    parseNumber key v = if pyFloatOk v then .pair key (.floatLex v) else .parseError :=
+  Phx.parseNumber_point key v hp
+
+/-- **every well-formed line contributes its assignment, in order** -/
+theorem protLoop_ok (d : Str) (ls : List Str) (acc : List (Str × PVal))
+    (h : ∀ l ∈ ls, parseLine d l ≠ .parseError) :
+    protLoop d ls acc = .ok (ls.foldl (applyLine d) acc) :=
+  Phx.protLoop_ok d ls acc h
+
+/-- **the whole protocol text**: `head ### ASCCONV BEGIN <rest>\n line\n … ### ASCCONV END ### trailer`
+    parses to the dictionary of the lines between the markers, nothing before BEGIN or after END
+    is looked at -/
+theorem parseProt_render (key : Str) (d : Str)
+    (hkey : (key = "MrPhoenixProtocol".toList ∧ d = ['"', '"']) ∨
+            (key = "MrProtocol".toList ∧ d = ['"']))
+    (head br trailer : Str) (lines : List Str)
+    (hh : '#' ∉ head) (hbr : '\n' ∉ br) (hl : ∀ l ∈ lines, '\n' ∉ l)
+    (hend : findSub END (BEGIN ++ br ++ '\n' :: joinNl lines) = none)
+    (hok : ∀ l ∈ lines, parseLine d l ≠ .parseError) :
+    parseProt key (head ++ (BEGIN ++ br ++ '\n' :: joinNl lines) ++ END ++ trailer) =
+      .ok (lines.foldl (applyLine d) []) :=
+  Phx.parseProt_render key d hkey head br trailer lines hh hbr hl hend hok
 
 end C16
